@@ -83,3 +83,116 @@ Qed.
 Theorem split_preserves_wfsb s n o i oid iid kind m rbond s' :
   wfsb s = true -> split_nodes s n o i oid iid kind m rbond = Some s' -> spec_ok s n o i -> ids_ok s n oid iid -> wfsb s' = true.
 Proof. intros H Hs H1 H2. apply wfs_wfsb. apply (split_preserves_wfs s n o i oid iid kind m rbond s'); [apply wfsb_wfs; exact H|exact Hs|exact H1|exact H2]. Qed.
+
+(* ---- adding one tensor that consists of one fresh atom ------------------------------------------------------------- *)
+Lemma sem_ok_extend s s' k tnew :
+  sem_ok s -> tensors s' = tensors s ++ [(k, tnew)] ->
+  atoms tnew = [next_atom s] -> bnd tnew = [] ->
+  atab s' = atab s ++ [(next_atom s, axes tnew)] -> next_atom s' = S (next_atom s) ->
+  next_wire s <= next_wire s' -> (forall z, In z (axes tnew) -> z < next_wire s') ->
+  (forall z, count_occ Nat.eq_dec (total_ends s) z + count_occ Nat.eq_dec (axes tnew) z <= 2) ->
+  sem_ok s'.
+Proof.
+  intros [H1 H2 H3 H4 H5 H6 H7] ET Hat Hbn Etab Ena Hnw Hax Hcnt.
+  assert (Hfresh : aget (next_atom s) (atab s) = None).
+  { apply aget_None. intros Hin. pose proof (H7 _ Hin). lia. }
+  assert (Hold : forall a, a < next_atom s -> atom_wires s' a = atom_wires s a).
+  { intros a Ha. unfold atom_wires. rewrite Etab, aget_snoc_other by lia. reflexivity. }
+  assert (Hends : total_ends s' = total_ends s ++ axes tnew).
+  { unfold total_ends. rewrite ET, flat_map_app. cbn. unfold sarr_ends. rewrite Hbn, !app_nil_r. reflexivity. }
+  assert (Hatoms : total_atoms s' = total_atoms s ++ [next_atom s]).
+  { unfold total_atoms. rewrite ET, flat_map_app. cbn. rewrite Hat. reflexivity. }
+  constructor.
+  - intros k' t E. rewrite ET, InvProofs.aget_app in E. destruct (aget k' (tensors s)) as [v|] eqn:Ev.
+    + injection E as <-. intros a Hin x Hx.
+      assert (Hlt : a < next_atom s) by (apply H5; apply (total_atoms_In s k' v a (aget_In _ _ _ Ev) Hin)).
+      rewrite (Hold a Hlt) in Hx. apply (H1 k' v Ev a Hin x Hx).
+    + cbn in E. destruct (Nat.eqb k' k); [|discriminate]. injection E as <-.
+      intros a Hin x Hx. rewrite Hat in Hin. destruct Hin as [<-|[]]. left.
+      unfold atom_wires in Hx. rewrite Etab, InvProofs.aget_app, Hfresh in Hx. cbn [aget] in Hx. rewrite Nat.eqb_refl in Hx. exact Hx.
+  - intros z. rewrite Hends, count_occ_app. apply Hcnt.
+  - intros z Hz. rewrite Hends in Hz. apply in_app_or in Hz. destruct Hz as [Hz|Hz]; [pose proof (H3 z Hz); lia|apply Hax; exact Hz].
+  - rewrite Hatoms. apply NoDup_app_iff. split; [exact H4|]. split; [constructor; [intros []|constructor]|].
+    intros a Ha [<-|[]]. pose proof (H5 _ Ha). lia.
+  - intros a Ha. rewrite Hatoms in Ha. rewrite Ena. apply in_app_or in Ha. destruct Ha as [Ha|[<-|[]]]; [pose proof (H5 _ Ha); lia|lia].
+  - intros a Ha. rewrite Hatoms in Ha. rewrite Etab, amem_app. apply in_app_or in Ha. destruct Ha as [Ha|[<-|[]]].
+    + rewrite (H6 _ Ha). reflexivity.
+    + unfold amem at 2. cbn. rewrite Nat.eqb_refl, orb_true_r. reflexivity.
+  - intros a Ha. rewrite Etab, akeys_app in Ha. rewrite Ena. apply in_app_or in Ha. cbn [akeys map fst] in Ha. destruct Ha as [Ha|[<-|[]]]; [pose proof (H7 _ Ha); lia|lia].
+Qed.
+
+(* ---- add_child ---------------------------------------------------------------------------------------------------------- *)
+Lemma open_wire_one_end s w : wfs s -> In w (open_wires s) -> count_occ Nat.eq_dec (total_ends s) w = 1.
+Proof.
+  intros WS Hin. pose proof (ws_wf s WS) as W. pose proof (so_ends2 s (proj2 (proj1 (wfs_iff_sem_ok s) WS)) w) as H2.
+  rewrite (proj1 (Permutation_count_occ Nat.eq_dec _ _) (wf_total_ends s W) w), !count_occ_app in *.
+  pose proof (proj1 (NoDup_count_occ Nat.eq_dec _) (wf_open_wires_NoDup s W) w).
+  apply (count_occ_In Nat.eq_dec) in Hin. nlia.
+Qed.
+
+Theorem add_child_preserves_wfs s c shp cleg p pleg s' :
+  wfs s -> add_child s c shp cleg p pleg = Some s' -> wfs s'.
+Proof.
+  intros WS Ha. pose proof (ws_wf s WS) as W. pose proof (add_child_preserves_wf _ _ _ _ _ _ _ W Ha) as W'.
+  destruct (add_child_wire_open s c shp cleg p pleg s' W Ha) as (Hop & Hpwlt & Hfresh & Hnw & Hfnd).
+  pose proof Ha as Ha'.
+  destruct (add_child_inv _ _ _ _ _ _ _ Ha) as (pn & pt & cn & pn' & Ep & Et & Ec & Hc & _ & Hd & Hcn & Hpn & E').
+  rewrite (add_child_wire_eq _ _ _ _ _ _ _ pn pt Ha' Ep Et) in *.
+  set (pw := parent_wire pn pt pleg) in *.
+  assert (Hct : aget c (tensors s) = None).
+  { destruct (aget c (tensors s)) as [v|] eqn:Ev; [|reflexivity].
+    assert (amem c (nodes s) = true) by (apply (wf_tn s W); apply amem_aget; eauto). congruence. }
+  assert (Pca : Permutation (child_axes s shp cleg pw) (pw :: add_child_fresh s shp cleg)).
+  { unfold child_axes, add_child_fresh. rewrite ib_set_nth_decomp by (rewrite seq_length; exact Hc).
+    symmetry. apply Permutation_middle. }
+  apply wfs_iff_sem_ok. split; [exact W'|].
+  apply (sem_ok_extend s s' c {| axes := child_axes s shp cleg pw; atoms := [next_atom s]; bnd := [] |}
+           (proj2 (proj1 (wfs_iff_sem_ok s) WS))); rewrite ?E'; cbn [tensors atab next_atom next_wire childed axes atoms bnd]; try reflexivity.
+  - apply ib_aset_absent. exact Hct.
+  - lia.
+  - intros z Hz. apply (Permutation_in _ Pca) in Hz. destruct Hz as [<-|Hz]; [lia|].
+    specialize (Hfresh z Hz). rewrite E' in Hfresh. cbn [next_wire childed] in Hfresh. lia.
+  - intros z. rewrite (proj1 (Permutation_count_occ Nat.eq_dec _ _) Pca z). cbn [count_occ].
+    pose proof (so_ends2 s (proj2 (proj1 (wfs_iff_sem_ok s) WS)) z) as H2.
+    pose proof (proj1 (NoDup_count_occ Nat.eq_dec _) Hfnd z) as H1.
+    destruct (Nat.eq_dec pw z) as [<-|Hne].
+    + rewrite (open_wire_one_end s pw WS Hop).
+      assert (Hn : ~ In pw (add_child_fresh s shp cleg)) by (intros Hin; specialize (Hfresh pw Hin); lia).
+      apply (count_occ_not_In Nat.eq_dec) in Hn. nlia.
+    + destruct (count_occ Nat.eq_dec (add_child_fresh s shp cleg) z) as [|cf] eqn:Ecf; [nlia|].
+      assert (Hin : In z (add_child_fresh s shp cleg)) by (apply (count_occ_In Nat.eq_dec); nlia).
+      specialize (Hfresh z Hin).
+      assert (Hn : ~ In z (total_ends s)) by (intros Hz; pose proof (In_total_ends_lt s z WS Hz); lia).
+      apply (count_occ_not_In Nat.eq_dec) in Hn. nlia.
+Qed.
+
+Theorem add_child_preserves_wfsb s c shp cleg p pleg s' :
+  wfsb s = true -> add_child s c shp cleg p pleg = Some s' -> wfsb s' = true.
+Proof. intros H Ha. apply wfs_wfsb. apply (add_child_preserves_wfs s c shp cleg p pleg s'); [apply wfsb_wfs; exact H|exact Ha]. Qed.
+
+(* ---- add_root ------------------------------------------------------------------------------------------------------------- *)
+(* a blank store whose atom table has no stale keys (e.g. the empty store) *)
+Definition blank_s (s : store) : Prop := blank s /\ forall a, In a (akeys (atab s)) -> a < next_atom s.
+
+Lemma blank_s_empty : blank_s empty_store.
+Proof. split; [apply blank_empty|intros a []]. Qed.
+
+Theorem add_root_wfs s n shp s' : blank_s s -> add_root s n shp = Some s' -> wfs s'.
+Proof.
+  intros [B Htab] Ha. pose proof (add_root_wf s n shp s' B Ha) as W'.
+  destruct (add_root_inv _ _ _ _ Ha) as (_ & s1 & ws & Ef & E').
+  destruct (fresh_wires_spec _ _ _ _ Ef) as (Ews & _ & F3 & _ & F5 & _ & F7 & _ & F9).
+  destruct B as (Bn & Bt & _ & _).
+  assert (S0 : sem_ok s).
+  { constructor; unfold total_ends, total_atoms; rewrite ?Bt; cbn; try (intros ? []); try constructor; auto. intros; discriminate. }
+  apply wfs_iff_sem_ok. split; [exact W'|].
+  apply (sem_ok_extend s s' n {| axes := ws; atoms := [next_atom s]; bnd := [] |} S0);
+    rewrite ?E'; cbn [tensors atab next_atom next_wire rooted axes atoms bnd]; rewrite ?F5, ?F7, ?F9, ?Bt; try reflexivity.
+  - lia.
+  - intros z Hz. rewrite Ews in Hz. apply in_seq in Hz. lia.
+  - intros z. unfold total_ends. rewrite Bt. cbn. rewrite Ews.
+    pose proof (proj1 (NoDup_count_occ Nat.eq_dec _) (seq_NoDup (length shp) (next_wire s)) z). nlia.
+Qed.
+
+Theorem add_root_wfsb s n shp s' : blank_s s -> add_root s n shp = Some s' -> wfsb s' = true.
+Proof. intros B Ha. apply wfs_wfsb. apply (add_root_wfs s n shp s' B Ha). Qed.
